@@ -75,6 +75,16 @@ Theorem xml_roundtrip_Change : forall v,
 Proof. exact roundtrip_Change. Qed.
 Print Assumptions xml_roundtrip_Change.
 
+(* --- the marshalled text of every object is decodable by the streaming scanner with the same
+       result (marshal_decodable_by_scanner, object level) --- *)
+Theorem marshal_decodable_by_scanner_object : forall T nm v,
+  In (T, nm) [("Node", "node"); ("Way", "way"); ("Relation", "relation"); ("Changeset", "changeset");
+              ("Note", "note"); ("User", "user"); ("Bounds", "bounds")] ->
+  wfb gen_schema T v = true ->
+  exists e, encode1 gen_schema T v = Ok e /\ scan_el gen_schema e = ([(T, v)], None).
+Proof. exact scanner_reads_object. Qed.
+Print Assumptions marshal_decodable_by_scanner_object.
+
 (* --- the generic theorem behind both: any schema, any type passing the static check tyok,
        any well-formed value, any fuel above its depth --- *)
 Theorem xml_roundtrip_generic : forall sch n, (n <= FUEL)%nat -> RT sch n.
@@ -121,3 +131,11 @@ Example ex_node_struct_hyps :
   | None => false
   end = true.
 Proof. vm_compute. reflexivity. Qed.
+
+(* STILL PARTIAL (stated, evaluated on every generated value by C04/Check.v, not proved):
+     xml_roundtrip_Diff : forall v, wfb gen_schema "Diff" v = true ->
+       exists e, encode1 gen_schema "Diff" v = Ok e /\ decode gen_schema "Diff" e = Ok v
+     (Action.MarshalXML / UnmarshalXML: one created element per action, old/new blocks = OSM blocks,
+      for which Codec.ProofsBlock.osm_block is available);
+     marshal_decodable_by_scanner for the containers:
+       fst (scan_el gen_schema e) = collect gen_schema FUEL (TNamed T) v  for T in OSM, Change, Diff. *)
